@@ -206,6 +206,22 @@ def run(ctx):
     if len(set(ksigs)) != 1:
         ctx.add_failing("kk-depends-on-schedule", {"results": [s[:3] for s in ksigs]}, observed="different results", expected="identical",
                         clause="a Kramers-Kronig extension search selects the same winner serially and in parallel")
+    # the non-linear test over its automatic range of RC elements: one worker (serial path) vs several (pool path)
+    from pyimpspec.analysis.kramers_kronig import evaluate_log_F_ext
+    for ident, npd in ((("CIRCUIT_1", 5), ("CIRCUIT_2", 7)) if big else (("CIRCUIT_1", 5),)):   # >= 21 points: the early-termination rule of the fan-out takes part
+        dc = generate_mock_data(ident, noise=5e-2, seed=42, num_per_decade=npd)[0]
+        sigs = []
+        for n in ((1, 2, 4) if big else (1, 2)):
+            try:
+                tests = evaluate_log_F_ext(dc, test="cnls", num_F_ext_evaluations=0, num_procs=n)[0][1]
+                sigs.append((len(tests), tests[0].num_RC, tests[-1].num_RC, tuple(float(t_.pseudo_chisqr) for t_ in tests)))
+            except Exception as x:  # noqa
+                sigs.append(("raised", type(x).__name__))
+            ctx.note_case(("kk-cnls-range", ident, n))
+        ctx.count("kk:cnls-range")
+        if len(set(sigs)) != 1:
+            ctx.add_failing("kk-cnls-depends-on-num-procs", {"data": ident, "points": dc.get_num_points(), "results": [s_[:3] for s_ in sigs]}, observed="different sets of test results", expected="identical for every num_procs",
+                            clause="a Kramers-Kronig test returns the same results serially and in parallel")
     if big:
         cs = []
         for n in (1, 3):
@@ -215,22 +231,27 @@ def run(ctx):
         if len(set(cs)) != 1:
             ctx.add_failing("kk-cnls-depends-on-schedule", {"results": [s[:3] for s in cs]}, observed="different", expected="identical")
 
-    # ---- mock data
+    # ---- mock data: every seed (0, small, negative, beyond 32 bits) reproduces its data bit for bit; seeds differ
+    seeds = [0, 1, 7, rnd.randrange(2, 10 ** 6), -rnd.randrange(1, 1000), 2 ** 31 - 1, 2 ** 32 + rnd.randrange(1, 100)]
     for ident in ("CIRCUIT_1", "CIRCUIT_2_INVALID", "CIRCUIT_5"):
-        try:
-            a = generate_mock_data(ident, noise=1e-2, seed=7)
-            b = generate_mock_data(ident, noise=1e-2, seed=7)
-            c = generate_mock_data(ident, noise=1e-2, seed=8)
-        except Exception as x:  # noqa
-            ctx.count("mock:skipped:" + type(x).__name__)
-            continue
-        ctx.note_case(("mock", ident))
-        for x, y in zip(a, b):
-            if x.get_impedances().tobytes() != y.get_impedances().tobytes():
-                ctx.add_failing("mock-data-not-repeatable", {"id": ident, "seed": 7}, observed="differs", expected="bit-identical",
-                                clause="mock data generated with the same seed is bit-identical")
-        if all(x.get_impedances().tobytes() == y.get_impedances().tobytes() for x, y in zip(a, c)):
-            ctx.add_failing("mock-data-seed-ignored", {"id": ident, "seeds": [7, 8]}, observed="identical", expected="different",
+        first = {}
+        for sd in seeds:
+            try:
+                a = generate_mock_data(ident, noise=1e-2, seed=sd)
+                b = generate_mock_data(ident, noise=1e-2, seed=sd)
+            except Exception as x:  # noqa
+                ctx.count("mock:skipped:" + type(x).__name__)
+                continue
+            ctx.note_case(("mock", ident, sd))
+            ctx.count("mock:seed")
+            for x, y in zip(a, b):
+                if x.get_impedances().tobytes() != y.get_impedances().tobytes():
+                    ctx.add_failing("mock-data-not-repeatable", {"id": ident, "seed": sd}, observed="differs", expected="bit-identical",
+                                    clause="mock data generated with the same seed is bit-identical")
+            first[sd] = a[0].get_impedances().tobytes()
+        vals = [first[k] for k in (0, 1, 7) if k in first]
+        if len(vals) >= 2 and len(set(vals)) != len(vals):
+            ctx.add_failing("mock-data-seed-ignored", {"id": ident, "seeds": [0, 1, 7]}, observed="identical", expected="different",
                             clause="mock data differs between seeds")
 
     # ---- the model's winner vs the implementation's
